@@ -75,7 +75,13 @@ class AxisTaint:
         return None
 
     def _guard(self, cond):
-        """(axis key, True) if cond is `AX < 0` (true branch = negative axis)"""
+        """axis key if cond is `AX < 0` (possibly conjoined with `AX is not None`): true branch = negative axis"""
+        if cond.op == "bool" and cond.opname == "and":
+            for v in cond.vals:
+                k = self._guard(v)
+                if k is not None:
+                    return k
+            return None
         if cond.op == "cmp" and cond.opname == "Lt" and cond.r.op == "const" and cond.r.value == 0:
             if self.of(cond.l, frozenset(["__probe__"])) == AX or self._is_ax_quiet(cond.l):
                 return self.key(cond.l)
@@ -130,6 +136,12 @@ class AxisTaint:
                     self.sink("axis used as a slice bound", t)
             return None
         if o == "sub":
+            ob = t.obj
+            if ob.op == "if" and ob.cond.op == "call" and ob.cond.fn.op == "ref" and ob.cond.fn.ref.qual.endswith("isinstance") and len(ob.cond.args) == 2 and ob.cond.args[1].op == "ref" and ob.cond.args[1].ref.qual in ("builtins.tuple", "builtins.list"):
+                # subscripting / unpacking implies the value is a sequence (an int would raise TypeError)
+                self.of(t.idx, safe)
+                v = self.of(ob.then, safe)
+                return AX if v == AX and t.idx.op in ("const", "slice") else None
             v = self.of(t.obj, safe)
             self.of(t.idx, safe)
             if t.idx.op == "const" and isinstance(t.idx.value, int):
@@ -178,6 +190,19 @@ class AxisTaint:
             return None
         if o == "if":
             c = t.cond
+            # path facts on `isinstance(axis, tuple)`: a value normalised under that test is only used under it
+            if c.op == "call" and c.fn.op == "ref" and c.fn.ref.qual in ("builtins.isinstance", "autograd.builtins.isinstance") and len(c.args) == 2:
+                k = self.key(c.args[0])
+                tn = c.args[1]
+                if k is not None and tn.op == "ref":
+                    tag = ("isinst", k, tn.ref.qual)
+                    if (tag, True) in safe:
+                        return self.of(t.then, safe)
+                    if (tag, False) in safe:
+                        return self.of(t.other, safe)
+                    a = self.of(t.then, safe | {(tag, True)})
+                    b = self.of(t.other, safe | {(tag, False)})
+                    return AX if AX in (a, b) else None
             gk = self._guard(c)
             if gk is not None:
                 # `if axis < 0: raise ...` sanitises the other branch; `if axis < 0: axis = axis + n` is the
@@ -265,11 +290,13 @@ def hazards(ctx, world, modes=("vjp", "jvp")):
         if not A.sinks:
             ctx.ob("A7", inst, True, e.loc)
             continue
+        fnode = ir.maker.fnode if ir.maker is not None else None
+        owner = getattr(fnode, "name", None) or e.prim_id
         for kind, txt, line in A.sinks:
             ctx.fail(
                 "A7",
                 inst + "|" + txt,
-                f"{e.mode}:{e.prim_id}|{txt}",
+                f"{e.mode}:{owner}|{txt}",
                 f"{e.mod.relpath}:{line}",
                 f"{kind}: `{txt}` gives a different result when the axis is written negatively",
                 "the same call with the axis given as a negative number (e.g. axis=-1 instead of axis=ndim-1)",
